@@ -108,7 +108,7 @@ class VEval:
         eid = environment.params.get("eid"); lid = learner.params.get("lid")
         if self.side:
             with open(self.side, "a") as f: f.write(json.dumps([eid, lid, self.vid]) + "\n")
-        failing = (eid, lid, self.vid) in self.fail
+        failing = (eid, lid, self.vid) in self.fail and self.where != "env"       # "env": the environment raises, not the evaluator
         if failing and self.where == "start": raise RuntimeError("evaluator fails for %s" % ((eid, lid, self.vid),))
         if failing and self.where in ("predict", "learn"): learner = RaiseProxy(learner, self.where)
         failing = failing and self.where == "middle"
@@ -132,6 +132,19 @@ class VEval:
             yield row
 
 
+class FailAt:
+    """An environment filter that raises when its k-th interaction is asked for (k = 0: as soon as the environment is read)."""
+    def __init__(self, k): self.k = k
+    @property
+    def params(self): return {"fail_at": self.k}
+    def filter(self, interactions):
+        n = 0
+        for it in interactions:
+            if n >= self.k: break
+            n += 1; yield it
+        raise RuntimeError("environment fails while interaction %d is read" % (self.k + 1))
+
+
 class VRej:
     """The built-in RejectionCB (no cinit: its initial multiplier is estimated from the data of each evaluation) behind the
     same side channel / fail set as VEval.  ONE RejectionCB object lives in the evaluator, exactly as when a user lists a
@@ -148,7 +161,7 @@ class VRej:
         eid = environment.params.get("eid"); lid = learner.params.get("lid")
         if self.side:
             with open(self.side, "a") as f: f.write(json.dumps([eid, lid, self.vid]) + "\n")
-        failing = (eid, lid, self.vid) in self.fail
+        failing = (eid, lid, self.vid) in self.fail and self.where != "env"
         if failing and self.where == "start": raise RuntimeError("evaluator fails for %s" % ((eid, lid, self.vid),))
         if failing and self.where in ("predict", "learn"): learner = RaiseProxy(learner, self.where)
         n = 0
@@ -207,6 +220,7 @@ def build(shape, side=None, n_int=6, variant=0, where=None):
             from coba.learners import RandomLearner
             ee = ee.logged(RandomLearner(), seed=5 + e)
         ee = ee.shuffle(seed=e).params({"eid": e})
+        if where == "env" and e in {t[0] for t in fail}: ee = ee.filter(FailAt(0 if e % 2 else 2))     # the environment itself raises while being read
         return (ee.batch(2) if e in batched else ee)[0]
     envs = {}
     bycls = {}
